@@ -12,6 +12,8 @@ import (
 	"fmt"
 	"math/big"
 	"net"
+	"os"
+	"path/filepath"
 	"sort"
 	"strings"
 	"syscall"
@@ -515,6 +517,19 @@ func (s *c19Server) stateDigest() string {
 func C19(tier string) int {
 	run := ev.NewRun("C19", tier, "exploration")
 	rig.Init()
+	caPEM, crtPEM, keyPEM, ownCreds, err := c19OwnAuthority()
+	if err != nil {
+		run.HarnessErr = err
+		return run.Finish()
+	}
+	trust := filepath.Join(rig.Scratch("c19trust"), "roots.pem")
+	if err := os.WriteFile(trust, caPEM, 0o600); err != nil {
+		run.HarnessErr = err
+		return run.Finish()
+	}
+	defer os.RemoveAll(filepath.Dir(trust))
+	os.Setenv("SSL_CERT_FILE", trust)
+	os.Setenv("SSL_CERT_DIR", filepath.Dir(trust))
 	srv, err := newC19Server(resources.CACrt, resources.SignerTest01Crt, resources.SignerTest01Key)
 	if err != nil {
 		run.HarnessErr = err
@@ -706,11 +721,6 @@ func C19(tier string) int {
 	}
 	// The same with an authority of the harness's own configured, which allows certificates the repository's fixed test
 	// certificates cannot express.
-	caPEM, crtPEM, keyPEM, ownCreds, err := c19OwnAuthority()
-	if err != nil {
-		run.HarnessErr = err
-		return run.Finish()
-	}
 	srv.cancel()
 	srv.rig.Close()
 	if srv, err = newC19Server(caPEM, crtPEM, keyPEM); err != nil {
@@ -722,12 +732,30 @@ func C19(tier string) int {
 		"own authority: subject CN=client-test02 with DNS name signer-test02", "client-test01 issued by the server's own certificate"}) {
 		return run.Finish()
 	}
-	ncreds := len(creds) + len(ownCreds)
+	// No authority configured at all: nobody holds "a certificate issued by the configured authority", whatever the
+	// host's own trust store says. The harness's authority is made host-trusted (SSL_CERT_FILE, set before anything in
+	// this process loaded the system roots), so a server that falls back to the system roots would serve its callers.
+	srv.cancel()
+	srv.rig.Close()
+	if srv, err = newC19Server(nil, crtPEM, keyPEM); err != nil {
+		run.HarnessErr = err
+		return run.Finish()
+	}
+	var noAuth []c19Cred
+	for _, c := range ownCreds {
+		c.Name = "no authority configured, host trusts the issuer: " + strings.TrimPrefix(c.Name, "own authority: ")
+		c.Valid, c.IsPeer, c.CN = false, false, ""
+		noAuth = append(noAuth, c)
+	}
+	if !phases(noAuth, []string{noAuth[0].Name, noAuth[2].Name}) {
+		return run.Finish()
+	}
+	ncreds := len(creds) + len(ownCreds) + len(noAuth)
 	// After everything the unauthenticated callers tried, a valid client can still sign at an epoch they tried.
 	run.Coverage = map[string]any{
 		"evaluations":         cells,
 		"distinct_nontrivial": len(classes),
-		"rule":                "a real API server (services/api/grpc with the repository's CA and server certificate) on loopback TCP; every one of the 16 RPC methods of the 5 registered services x every credential kind (plaintext, TLS without client certificate, self-signed CN=client-test01, certificate from a freshly generated other authority with and without its CA in the chain, valid client-test01/02/03, valid signer-test02, valid leaf followed by unverified certificates; and, against a second server configured with an authority of the harness's own: names split over CN / DNS names / O / OU, empty CN, leaves issued through intermediates named like a permitted client or a peer, certificates issued by the server's own certificate, by a look-alike authority of the same name, and a self-signed leaf followed by the authority's certificate) x wallets; unauthenticated kinds must yield no signature, account entry, key-generation reply or accepted protocol message and must not change the instance's state digest (all slashing records, lock states, account population, sessions); valid certificates are served according to the permissions of the certificate's subject name, clients cannot speak the key-generation protocol; then every ordered pair of callers (quick: three valid subjects incl. the peer as first, those and three unauthenticated kinds as second, five methods; thorough: every credential kind in both roles and every method) where the second connects from the very source address (ip:port) the first one used for a call and closed, judged as if the first had never existed; distinct = (credential, method, yielded, changed) classes",
+		"rule":                "a real API server (services/api/grpc with the repository's CA and server certificate) on loopback TCP; every one of the 16 RPC methods of the 5 registered services x every credential kind (plaintext, TLS without client certificate, self-signed CN=client-test01, certificate from a freshly generated other authority with and without its CA in the chain, valid client-test01/02/03, valid signer-test02, valid leaf followed by unverified certificates; and, against a second server configured with an authority of the harness's own: names split over CN / DNS names / O / OU, empty CN, leaves issued through intermediates named like a permitted client or a peer, certificates issued by the server's own certificate, by a look-alike authority of the same name, and a self-signed leaf followed by the authority's certificate; and against a third server with no authority configured while the host's trust store (SSL_CERT_FILE) contains the harness's authority: every one of those callers must be refused) x wallets; unauthenticated kinds must yield no signature, account entry, key-generation reply or accepted protocol message and must not change the instance's state digest (all slashing records, lock states, account population, sessions); valid certificates are served according to the permissions of the certificate's subject name, clients cannot speak the key-generation protocol; then every ordered pair of callers (quick: three valid subjects incl. the peer as first, those and three unauthenticated kinds as second, five methods; thorough: every credential kind in both roles and every method) where the second connects from the very source address (ip:port) the first one used for a call and closed, judged as if the first had never existed; distinct = (credential, method, yielded, changed) classes",
 		"samples":             samples.List(),
 		"exhaustive":          true,
 		"methods":             len(methods),
